@@ -6,7 +6,7 @@ cd /repo || exit 2
 if [ -n "$(git status --porcelain --untracked-files=no)" ]; then echo "/repo not clean"; exit 2; fi
 if ! git apply "$PATCH" 2>/tmp/apply.err; then echo "patch does not apply:"; cat /tmp/apply.err; git reset -q --hard HEAD ; exit 3; fi
 git reset -q 2>/dev/null
-cd /verif && VERIF_EVIDENCE_SKIP=1 ./check "$ID" "$TIER" > /tmp/try_seed.$ID.out 2>&1; rc=$?
+cd /verif && VERIF_EVIDENCE_SKIP=1 VERIF_FAILFAST=1 ./check "$ID" "$TIER" > /tmp/try_seed.$ID.out 2>&1; rc=$?
 cd /repo && git checkout -q -- . && git status --porcelain --untracked-files=no
 grep -E "^(VIOLATION|OK|INCONCLUSIVE|KNOWN|---)" /tmp/try_seed.$ID.out | head -12
 echo "exit=$rc"
